@@ -35,7 +35,7 @@ From NngV Require Proto.PushModel Proto.PullModel Proto.PubModel Proto.SubModel 
   Proto.PairGuard Proto.BusModel Proto.XReqModel Proto.XRepModel Proto.SurveyModel Proto.XSurveyModel Proto.XRespondModel
   Proto.PushProofs Proto.PubSubProofs Proto.PubSubProofs3 Proto.BusProofs Queue.LmqModel Queue.MsgqModel Msg.MsgModel IdMap.IdMapModel
   Proto.RepModel Proto.RespondModel Proto.ReqModel Proto.ReqProofs
-  Ledger.OwnReq Ledger.OwnPipeline Ledger.OwnPipelineClose Ledger.OwnPubSub Ledger.OwnPairBus Ledger.OwnSurvey Ledger.OwnXReqRep Ledger.OwnRepResp.
+  Ledger.OwnReq Ledger.OwnPipeline Ledger.OwnPipelineClose Ledger.OwnPubSub Ledger.OwnPairBus Ledger.OwnSurvey Ledger.OwnXReqRep Ledger.OwnRepResp Ledger.ViewsCur.
 Import ListNotations.
 
 (* ================= 1. the ledger itself ================= *)
@@ -124,9 +124,14 @@ Print Assumptions fini_frees_leave_nothing.
 Theorem pull_ledger_balanced : ledger_ok view_pull PullModel.pull_step PullModel.pull_init (fun _ _ => True) OwnPipelineClose.pull_close_script.
 Proof. exact pull_ledger_ok. Qed.
 Print Assumptions pull_ledger_balanced.
-Theorem push_ledger_balanced : ledger_ok view_push PushModel.push_step PushModel.push_init OwnPipeline.push_ok OwnPipelineClose.push_close_script.
+(* PUSH: for either text of push0_set_send_buf_len (fr = blocked senders move into a resized buffer, the repair of
+   finding push-resize-overtakes-blocked); the model driver runs ViewsCur.push_step_cur = push_step_r <flag of the source> *)
+Theorem push_ledger_balanced : forall fr, ledger_ok view_push (PushModel.push_step_r fr) PushModel.push_init OwnPipeline.push_ok OwnPipelineClose.push_close_script.
 Proof. exact push_ledger_ok. Qed.
 Print Assumptions push_ledger_balanced.
+Theorem push_current_source_step : ViewsCur.push_step_cur = PushModel.push_step_r Gen.Consts.C06_PUSH_RESIZE_ADMITS_FIXED.
+Proof. reflexivity. Qed.
+Print Assumptions push_current_source_step.
 Theorem pub_ledger_balanced : ledger_ok view_pub PubModel.pub_step PubModel.pub_init PubSubProofs3.pub_op_ok OwnPubSub.pub_close_script.
 Proof. exact pub_ledger_ok. Qed.
 Print Assumptions pub_ledger_balanced.
